@@ -372,6 +372,50 @@ def trunc_rule(ctx, syn):
         return
     f = fl[0]
     ctx.functions_analysed.add(f.qual)
+    # the handle types themselves: Handle::new / as_usize of every impl, evaluated from their bodies
+    impls = {}
+    for g in syn.fns:
+        if (g.trait or "") == "Handle" and g.name in ("new", "as_usize") and g.body is not None:
+            impls.setdefault(g.self_ty, {})[g.name] = g
+    hh = {"call:Self": lambda ev, recv, args, node, env: StructVal("Handle", {"0": args[0]})}
+
+    def tryfrom(width):
+        def h(ev, recv, args, node, env):
+            from formula import ok as OK_, err as ERR_
+            return OK_(args[0]) if isinstance(args[0], int) and 0 <= args[0] < (1 << width) else ERR_("range")
+        return h
+    for w_ in (8, 16, 32, 64):
+        hh["call:u%d::try_from" % w_] = tryfrom(w_)
+
+    def h_expect(ev, recv, args, node, env):
+        if isinstance(recv, tuple) and recv and recv[0] == "ok":
+            return recv[1]
+        if isinstance(recv, tuple) and recv and recv[0] == "err":
+            raise Panic("expect-on-err", node.get("l"))
+        return NotImplemented
+    hh["expect"] = h_expect
+    hh["unwrap"] = h_expect
+    widths = {}
+    for ty, fs in sorted(impls.items()):
+        if "new" not in fs or "as_usize" not in fs:
+            continue
+        ctx.functions_analysed.add(fs["new"].qual)
+        try:
+            w = None
+            for n_ in (0, 7, 255, 256, 65535, 65536, 70000, (1 << 32) - 1, 1 << 32, (1 << 32) + 3):
+                hnd = Evaluator(hooks=hh).run_body(fs["new"].body, {"intid": n_})
+                back = Evaluator(hooks=hh).run_body(fs["as_usize"].body, {"self": hnd})
+                if back != n_ and w is None:
+                    w = n_.bit_length() - 1 if n_ & (n_ - 1) == 0 else None
+                if back != n_ and back != n_ % (1 << (w or 64)):
+                    raise Unknown("Handle::new(%d).as_usize() = %r" % (n_, back))
+            widths[ty] = w
+            r.hit("handle:" + ty, sample={"handle_type": ty, "wraps_at_bits": w})
+        except Panic as e:
+            ctx.report(r, "new-panics:" + ty, "<%s as Handle>::new panics (%s) for a number that does not fit the handle type: resolve_id builds the handle from the number in a temporary id before it rejects numbers that do not fit, so a look-up of \"!X<big number>\" aborts the program instead of answering 'not found'" % (ty, e), fs["new"].file, fs["new"].line)
+        except Unknown as e:
+            ctx.report(r, "new-unevaluated:" + ty, "<%s as Handle>::new / as_usize could not be evaluated (%s)" % (ty, e), fs["new"].file, fs["new"].line)
+    ctx.floor(r, len(impls), 7, "Handle implementations")
     for width, name in ((16, "u16 handles (keys, ...)"), (32, "u32 handles (annotations, data, ...)")):
         hooks = {}
         hooks["idmap"] = lambda ev, recv, args, node, env: some(StructVal("IdMap", {"resolve_temp_ids": True, "data": {}}))
